@@ -36,6 +36,10 @@ type RuntimeOpts struct {
 	// (int64_encoding=NUMBER, bytes_encoding, nullable) on fields of the reply and of the request bodies,
 	// so that the messages on the wire have a generated MarshalJSON / UnmarshalJSON of their own.
 	AnnotatedBodies bool
+	// WellKnown adds fields of the dynamically typed well-known types (google.protobuf.Value, Struct,
+	// ListValue) to the reply and to request bodies: an UNSET Value and an explicit JSON null are different
+	// messages.
+	WellKnown bool
 }
 
 var urlFieldNames = []string{"user_id", "org", "page", "q", "name", "ratio", "flag", "item_id", "limit", "cursor", "since", "tenant_name"}
@@ -68,6 +72,12 @@ func GenRuntimeFile(r *R, idx int, o RuntimeOpts) *ir.Request {
 		{Name: "maybe", Number: 11, Kind: "int32", Card: "optional"},
 		{Name: "u", Number: 12, Kind: "uint64"},
 	}}
+	if o.WellKnown {
+		resp.Fields = append(resp.Fields,
+			&ir.Field{Name: "extra", Number: 13, Kind: "message", TypeName: ".google.protobuf.Value"},
+			&ir.Field{Name: "meta", Number: 14, Kind: "message", TypeName: ".google.protobuf.Struct"},
+			&ir.Field{Name: "items", Number: 15, Kind: "message", TypeName: ".google.protobuf.Value", Card: "repeated"})
+	}
 	if o.AnnotatedBodies {
 		// ONE annotation kind per message: two kinds on one message each emit their own MarshalJSON
 		// (a recorded C13 finding)
@@ -165,6 +175,10 @@ func GenRuntimeFile(r *R, idx int, o RuntimeOpts) *ir.Request {
 				{Name: "opt_num", Kind: "uint32", Card: "optional"},
 				{Name: "f32", Kind: "float"},
 				{Name: "fx", Kind: "fixed64"},
+			}
+			if o.WellKnown {
+				body = append(body, &ir.Field{Name: "dyn", Kind: "message", TypeName: ".google.protobuf.Value"},
+					&ir.Field{Name: "dyn_list", Kind: "message", TypeName: ".google.protobuf.ListValue"})
 			}
 			nb := 2 + r.Intn(6)
 			bodyKind := r.Intn(4) // which annotation kind this request message carries (3: none)
